@@ -467,7 +467,7 @@ def outcome(r):
 
 # ---------------------------------------------------------------- the run
 
-def build_and_run(ctx, files, up):
+def build_and_run(ctx, files):
     """files: list of generated file dicts (with 'calls').  Returns impl output per file."""
     d = os.path.join(ctx.work, 'par')
     os.makedirs(d, exist_ok=True)
@@ -511,7 +511,7 @@ def correspond(ctx, proof_ok=True):
         fi['calls'] = gen_calls(rng, fi, ncalls)
     import time
     t_impl = time.time()
-    outs, pydl_file = build_and_run(ctx, files, None)
+    outs, pydl_file = build_and_run(ctx, files)
     t_impl = time.time() - t_impl
     ctx.coverage['pydl_file'] = pydl_file
 
@@ -548,7 +548,18 @@ def correspond(ctx, proof_ok=True):
     bad_files.sort(key=lambda kv: (len(outs[kv[0]]['rows']), kv[0]))
     findings = {}     # signature -> (size, replay, summary, failing)
     detail_budget = ctx.n(24, 200)
-    detailed = bad_files[:detail_budget]
+    # the smallest files of every class (verdict bits, style, well-formed or not) in turn, so that one frequent defect
+    # cannot hide another one
+    classes = {}
+    for k, v in bad_files:
+        classes.setdefault((v & 3, files[k]['style'], files[k]['kind'] == 'wf'), []).append((k, v))
+    detailed = []
+    depth = 0
+    while len(detailed) < min(detail_budget, len(bad_files)):
+        for key in sorted(classes):
+            if depth < len(classes[key]) and len(detailed) < detail_budget:
+                detailed.append(classes[key][depth])
+        depth += 1
     from concurrent.futures import ThreadPoolExecutor
 
     def detail(kv):
@@ -593,6 +604,10 @@ def correspond(ctx, proof_ok=True):
         al_t = aliases_term(rep['aliases_read'])
         txt = cc.show('explain %s %s %s %s' % (C.boollit(up), rows_t, al_t, rep['coq_call']), tag='explain%s' % C.sha(rep['coq_call']))
         return decode_strings(' '.join(txt.split()))[-1500:]
+    if bad_files and not findings:
+        k, v = bad_files[0]
+        ctx.violation('C07:unclassified:verdict=%d' % (v & 3), 'a file does not pass but no call could be singled out',
+                      {'kind': 'broken-correspondence', 'item': 'C07.Model.run_case', 'file_text': files[k]['text'], 'verdict': v}, False)
     order = sorted(findings.items())
     with ThreadPoolExecutor(max_workers=C.NPROC) as ex:
         expl = list(ex.map(lambda kv: explain(kv[1][1]), order[:40]))
